@@ -451,7 +451,38 @@ def run(ctx, rep):
     if ce is not None:
         rets_ = [n for n in walk_no_nested(ce.node) if isinstance(n, ast.Return) and isinstance(n.value, ast.Tuple)]
         names_ = [getattr(e, 'id', '') for e in rets_[0].value.elts] if rets_ else []
-        sides = ['left' if (n_.lower().endswith('left') or n_ == 'L') else 'right' if (n_.lower().endswith('right') or n_ == 'R') else '?' for n_ in names_]
+
+        def tail_of(listname):
+            """'left' (lower tail: built from `<=` comparisons of the data with the grid) / 'right' (`>=`) / '?', from what is
+            appended to the list and under which guard - not from its name."""
+            found = set()
+            for c_ in walk_no_nested(ce.node):
+                if not (isinstance(c_, ast.Call) and call_name(c_) in ('append', 'extend') and isinstance(c_.func, ast.Attribute)
+                        and isinstance(c_.func.value, ast.Name) and c_.func.value.id == listname):
+                    continue
+                exprs = list(c_.args)
+                p_ = c_
+                while p_ is not None and p_ is not ce.node:
+                    p_ = getattr(p_, '_parent', None)
+                    if isinstance(p_, ast.If):
+                        exprs.append(p_.test)
+                seen, todo = set(), [x.id for e_ in exprs for x in ast.walk(e_) if isinstance(x, ast.Name)]
+                while todo:
+                    nm_ = todo.pop()
+                    if nm_ in seen or nm_ == listname:
+                        continue
+                    seen.add(nm_)
+                    for a_ in walk_no_nested(ce.node):
+                        if isinstance(a_, ast.Assign) and any(isinstance(t_, ast.Name) and t_.id == nm_ for t_ in a_.targets):
+                            ops = {type(o_) for x in ast.walk(a_.value) if isinstance(x, ast.Compare) for o_ in x.ops}
+                            if ops and ops <= {ast.LtE, ast.Lt}:
+                                found.add('left')
+                            elif ops and ops <= {ast.GtE, ast.Gt}:
+                                found.add('right')
+                            elif not ops:
+                                todo.extend(x.id for x in ast.walk(a_.value) if isinstance(x, ast.Name))
+            return found.pop() if len(found) == 1 else '?'
+        sides = [tail_of(n_) if n_ else '?' for n_ in names_]
         if sides == ['left', 'left', 'right', 'right']:
             rep.ok('D3.index', ce, rets_[0], 'returns (left grid, left curve, right grid, right curve)', construct='empirical tail order')
         elif len(sides) == 4 and '?' not in sides:
